@@ -1,4 +1,6 @@
 // (cbmc: included at the end of the sliced SimpleConfigLoader.cpp)
+#include <string.h>
+#include <stdlib.h>
 #include "config.h"
 #include "SimpleConfigLoader.h"
 #include "shared.h"
